@@ -37,7 +37,7 @@ impl Monitor for C16 {
         ]
     }
     fn rule(&self) -> String {
-        "case = one generated history with payloads from 0 to several hundred KiB; evaluation = one call after which resource_usage() is read and compared with quantities computed from the observed snapshot: P = retained payload bytes, N = queue-name bytes, R = retained records; asserted: P+N <= used <= P+N+64R and used <= P+N+cR where c is the per-record overhead measured on a trivial 10-record state of the same build, used <= allocated, a truncation that evicted e records of E bytes lowers `used` by between E + c*e and E+64e, and with every queue empty N <= used <= N+64*queues; distinct_nontrivial = distinct (P, N, R) triples with R >= 2".into()
+        "case = one generated history with payloads from 0 to several hundred KiB; evaluation = one call after which resource_usage() is read and compared with quantities computed from the observed snapshot (and, for the upper bound, also from the sequential specification of C05 run alongside, so that records wrongly kept are not counted in the library's favour): P = retained payload bytes, N = queue-name bytes, R = retained records; asserted: P+N <= used <= P+N+64R and used <= P+N+cR where c is the per-record overhead measured on a trivial 10-record state of the same build, used <= allocated, a truncation that evicted e records of E bytes lowers `used` by between E + c*e and E+64e, and with every queue empty N <= used <= N+64*queues; distinct_nontrivial = distinct (P, N, R) triples with R >= 2".into()
     }
     fn assumptions(&self) -> Vec<String> {
         vec!["'small constant per retained record' is taken as <= 64 bytes (the statement gives no number; the implementation's is 24)".into()]
@@ -90,6 +90,7 @@ impl Monitor for C16 {
         }
         acc.max("max_calibrated_per_record_overhead_bytes", per_record);
         let mut prev_snap = Snapshot::default();
+        let mut model = crate::ops::Model::new(key);
         let mut prev_used = d.sut.log().resource_usage().memory_used_bytes as u64;
         let mut sampled = false;
         for _ in 0..nops {
@@ -102,6 +103,8 @@ impl Monitor for C16 {
                 acc.inconclusive("restart failed (C01 territory)".to_string());
                 return;
             }
+            // what the sequential specification (C05's model) retains after this call
+            model.apply(st.k, &st.op);
             let snap = match Snapshot::take(d.sut.log()) {
                 Ok(s) => s,
                 Err(e) => {
@@ -148,6 +151,17 @@ impl Monitor for C16 {
             }
             if used > alloc {
                 acc.violation(format!("C16/used-exceeds-allocated/after-{}", st.op.kind()), case, detail("memory_used_bytes <= memory_allocated_bytes"));
+                return;
+            }
+            // the same upper bound against what SHOULD be retained (sequential specification),
+            // so that records the library failed to evict are not counted in its favour
+            let (pm, nm, rm) = measure(&model.snapshot());
+            if used > pm + nm + SLACK * rm.max(snap.queues.len() as u64) {
+                acc.violation(
+                    format!("C16/used-exceeds-what-the-specification-retains/after-{}", st.op.kind()),
+                    case,
+                    json!({"history": d.history_json(300), "after_call": st.op.to_json(), "memory_used_bytes": used, "specified_retained_payload_bytes": pm, "queue_name_bytes": nm, "specified_retained_records": rm, "observed_retained_payload_bytes": p, "observed_retained_records": r, "observed_vs_specified_state": model.snapshot().diff(&snap), "outcome": st.outcome.to_json()}),
+                );
                 return;
             }
             if r == 0 {
